@@ -140,7 +140,7 @@ def _assigned_names(stmts) -> set:
 class Walker:
     def __init__(self, prog: Program, ctx: Optional[str] = None, inline: str = "light", max_depth: int = 8,
                  param_types: Optional[Dict[str, str]] = None, max_states: int = 4000,
-                 no_inline: Tuple[str, ...] = (), force_inline: Tuple[str, ...] = ()):
+                 no_inline: Tuple[str, ...] = (), force_inline: Tuple[str, ...] = (), light_for: Tuple[str, ...] = ()):
         self.prog = prog
         self.ctx = prog.cls(ctx) if ctx else None
         self.inline = inline
@@ -149,6 +149,7 @@ class Walker:
         self.max_states = max_states
         self.no_inline = set(no_inline)
         self.force_inline = set(force_inline)
+        self.light_for = set(light_for)  # in deep mode: these keep the light policy (inlined only when a single return)
         self._site = 0
         self._simple_cache: Dict[int, bool] = {}
         self._writes_cache: Dict[Tuple[str, str], set] = {}
@@ -638,18 +639,19 @@ class Walker:
         return out
 
     def bind_loop_target(self, target, dom, lid, st, node) -> List[State]:
-        d = dom
-        if d[0] == "call" and d[1] == ("g", "enumerate") and len(d[2]) >= 1 and isinstance(target, ast.Tuple) \
-                and len(target.elts) == 2:
-            xs = d[2][0]
-            s1 = self.assign(target.elts[0], ("ix", lid, xs), st, node)
-            out = []
-            for s in s1:
-                out.extend(self.assign(target.elts[1], self.elem_of(lid, xs), s, node))
-            return out
-        return self.assign(target, self.elem_of(lid, d), st, node)
+        return self.assign(target, self.elem_of(lid, dom), st, node)
 
     def elem_of(self, lid, dom):
+        """the element a loop over `dom` binds in its generic iteration; enumerate / zip give structured elements whose
+        parts share the loop id (same position in every zipped sequence)"""
+        if dom[0] == "call" and dom[1] == ("g", "enumerate") and len(dom[2]) >= 1 and not dom[3]:
+            xs = dom[2][0]
+            ix = ("ix", lid, xs)
+            if len(dom[2]) == 2:
+                ix = self.mk_bin("+", ix, dom[2][1])
+            return ("tup", (ix, self.elem_of(lid, xs)))
+        if dom[0] == "call" and dom[1] == ("g", "zip") and len(dom[2]) >= 1 and not dom[3]:
+            return ("tup", tuple(self.elem_of(lid, x) for x in dom[2]))
         return ("it", lid, dom)
 
     def s_While(self, n, st):
@@ -970,6 +972,10 @@ class Walker:
             out.append((s, self.index_value(cont, idx, s)))
         return out
 
+    def e_Slice(self, n, st):
+        parts = [x if x is not None else ast.Constant(None) for x in (n.lower, n.upper, n.step)]
+        return [(s, ("slc", v[0], v[1], v[2])) for s, v in self.ev_seq(parts, st)]
+
     def index_value(self, cont, idx, st: State):
         if cont[0] in ("tup", "lst") and is_const(idx) and isinstance(idx[1], int) and -len(cont[1]) <= idx[1] < len(cont[1]):
             return cont[1][idx[1]]
@@ -1263,7 +1269,8 @@ class Walker:
         self.emit(st, "new", node, cls=cls.name, args=args, kwargs=kwargs, obj=obj)
         if init is None or cls.is_subclass_of("Exception"):
             return [(st, obj)]
-        if self.inline == "deep" and len(st.stack) < self.max_depth and init.qualname not in self.no_inline and "__init__" not in self.no_inline:
+        if self.inline == "deep" and len(st.stack) < self.max_depth and init.qualname not in self.no_inline and "__init__" not in self.no_inline \
+                and "__init__" not in self.light_for:
             res = self._inline(init, cls, obj, args, kwargs, st, node, "__init__")
             return [(s, obj) for s, _ in res]
         bound = self._bind_args(init, args, kwargs, skip_self=True)
@@ -1313,6 +1320,8 @@ class Walker:
             want = False
         elif f.qualname in self.force_inline or f.src_name in self.force_inline:
             want = rec < 2
+        elif self.inline == "deep" and (f.src_name in self.light_for or f.qualname in self.light_for):
+            want = (force or self.is_simple(f)) and rec < 1
         elif self.inline == "deep":
             want = rec < 2
         elif self.inline == "light":
